@@ -399,6 +399,9 @@ def check_average(ctx):
                 lo, hi, step = sl.args
                 okx = (isinstance(lo, Const) and lo.v is None or isinstance(lo, Num) and lo.is_const() and lo.const() == 0) and isinstance(hi, Const) \
                     and hi.v is None and veq(step, n)
+        rxn = res.items[0]
+        if not okx and isinstance(rxn, Num) and rxn.length is not None and isinstance(n, Num) and rxn.r == x.at(sym.idx() * n.r).r:
+            okx = True          # x[::interval] as an element-wise form: every interval-th sample of x
         oky = len(vy) == 1 and isinstance(ry, Term) and ry.head == 'lib:numpy.nanmean' and veq(targ(ry, 'a', 0), vy[0]) and isinstance(targ(ry, 'axis', 1), Num) \
             and targ(ry, 'axis', 1).is_const() and targ(ry, 'axis', 1).const() in (1, -1)       # the view is two-dimensional (C17.4): its last axis is axis 1
         ok = okx and oky
